@@ -8,6 +8,7 @@ import (
 	"github.com/syndtr/goleveldb/leveldb"
 	"github.com/syndtr/goleveldb/leveldb/comparer"
 	"github.com/syndtr/goleveldb/leveldb/storage"
+	"verifharness/lib/vlib"
 	"verifharness/lib/vstor"
 )
 
@@ -106,7 +107,8 @@ func CheckVersionWf(cmp comparer.Comparer, e leveldb.VerifEdit, cache map[int64]
 			perLevel[t.Level] = m
 		}
 		for _, en := range ents {
-			s, ok := m[string(en.Ukey)]
+			ck := string(vlib.CanonKey(cmp, en.Ukey)) // one user key = one equivalence class of the comparer
+			s, ok := m[ck]
 			if !ok {
 				s = span{en.Seq, en.Seq}
 			}
@@ -116,7 +118,7 @@ func CheckVersionWf(cmp comparer.Comparer, e leveldb.VerifEdit, cache map[int64]
 			if en.Seq > s.max {
 				s.max = en.Seq
 			}
-			m[string(en.Ukey)] = s
+			m[ck] = s
 		}
 	}
 	maxLevel := 0
